@@ -151,3 +151,61 @@ def found_rejects(V, sc):
     return only_err_returns(V, sc["found"])
 
 
+
+
+def delegated_validator(prog, body, param=1):
+    """`fn try_from(raw) { validate(raw)?; .. }`: the private function of the crate that `body` calls unconditionally as its first
+    action with the validated parameter and whose `Result<(), _>` it propagates with `?` — the validator proper — or None."""
+    from .facts import callee
+    bb = 0
+    for _ in range(12):
+        t = body.blocks[bb]["t"]
+        if t["k"] == "goto":
+            bb = t["target"]
+            continue
+        if t["k"] != "call":
+            return None
+        f = callee(t)
+        hb = prog.bodies.get((f or {}).get("inst") or (f or {}).get("def")) if f else None
+        if hb is not None and hb.crate == body.crate and hb.kind in ("Fn", "AssocFn") and not hb.raw.get("pub") and not hb.raw.get("exported") \
+                and hb.local_ty(0).replace(" ", "").startswith("core::result::Result<(),") and t["args"]:
+            # argument = the parameter (through reborrows / copies)
+            l = op_local(t["args"][0])
+            for _ in range(4):
+                if l == param:
+                    break
+                d = [s2 for _, _, s2 in body.stmts() if s2["k"] == "assign" and s2["place"]["l"] == l and not s2["place"]["p"]]
+                if len(d) != 1:
+                    break
+                rv = d[0]["rv"]
+                if rv["k"] == "use" and op_local(rv["op"]) is not None:
+                    l = op_local(rv["op"])
+                elif rv["k"] == "ref" and rv["place"]["p"] in ([], ["*"]):
+                    l = rv["place"]["l"]
+                else:
+                    break
+            res = t["dest"]["l"]
+            # `?`: the result goes to Try::branch
+            nb = body.blocks[t["target"]]["t"] if t.get("target") is not None else None
+            propagated = any("core::ops::try_trait::Try::branch" in callee_names(t2) and t2["args"] and op_local(t2["args"][0]) is not None
+                             for _, t2 in body.calls() if _moves_from(body, op_local(t2["args"][0]) if t2["args"] else None, res))
+            if l == param and propagated:
+                return hb
+            return None
+        if t.get("target") is None:
+            return None
+        bb = t["target"]
+    return None
+
+
+def _moves_from(body, local, src, depth=4):
+    for _ in range(depth):
+        if local is None:
+            return False
+        if local == src:
+            return True
+        d = [s2 for _, _, s2 in body.stmts() if s2["k"] == "assign" and s2["place"]["l"] == local and not s2["place"]["p"]]
+        if len(d) != 1 or d[0]["rv"]["k"] != "use":
+            return False
+        local = op_local(d[0]["rv"]["op"])
+    return False
